@@ -793,11 +793,19 @@ def stress(case, res):
         t0 = time.monotonic()
         for th in ths:
             th.start()
+        # bounded by iterations and by a soft time limit (then the threads finish their current operation and leave);
+        # only threads that do not come back long after `stop` was set make the run inconclusive
+        soft = float(case.get("soft_s", 60))
         for th in ths:
-            th.join(max(1.0, 120 - (time.monotonic() - t0)))
+            th.join(max(0.05, soft - (time.monotonic() - t0)))
         if any(th.is_alive() for th in ths):
             stop.set()
-            res.inconc("stress run did not finish in 120 s (possible deadlock, or slow machine)")
+            res.count("stress_runs_ended_by_soft_limit")
+            t1 = time.monotonic()
+            for th in ths:
+                th.join(max(1.0, 600 - (time.monotonic() - t1)))
+        if any(th.is_alive() for th in ths):
+            res.inconc("stress run: threads did not end within 600 s after the stop flag was set (possible deadlock)")
         blocked = sum(1 for e in log.events if e[1] == "blocked")
         res.count("blocked_events", blocked)
         wids = {th.ident: f"w{i}" for i, th in enumerate(ths[:case["writers"]])}
@@ -889,9 +897,9 @@ def all_points(tier):
 
 def shards(tier, seed):
     out = [{"name": f"sched{i}", "kind": "sched", "i": i, "budget_s": 200 if tier == "quick" else 2400} for i in range(NSHARDS)]
-    ns = 4 if tier == "quick" else 16
-    out += [{"name": f"stress{i}", "kind": "stress", "i": i, "iters": 40 if tier == "quick" else 700, "budget_s": 200, "cov": False,
-             "timeout_s": 400} for i in range(ns)]
+    ns = 4 if tier == "quick" else 32
+    out += [{"name": f"stress{i}", "kind": "stress", "i": i, "iters": 40 if tier == "quick" else 2500, "budget_s": 200 if tier == "quick" else 1800, "cov": False,
+             "timeout_s": 400 if tier == "quick" else 3600} for i in range(ns)]
     return out
 
 
@@ -907,7 +915,8 @@ def run_shard(spec, res):
     else:
         rng = rng_for(spec["seed"], "c18-stress", spec["i"])
         run_case({"kind": "S", "seed": rng.randrange(10**6), "writers": rng.randint(2, 4), "readers": rng.randint(4, 8),
-                  "iters": spec["iters"], "yield_p": rng.choice([0.0, 0.01, 0.03]), "typed": spec["i"] % 2 == 1}, res)
+                  "iters": spec["iters"], "yield_p": rng.choice([0.0, 0.01, 0.03]), "typed": spec["i"] % 2 == 1,
+                  "soft_s": 60 if spec["tier"] == "quick" else 240}, res)
 
 
 def post_merge(total):
